@@ -190,6 +190,12 @@ theorem step_adv (w : World) (op : Op σ) (c i : Bytes) :
       · cases h; exact Adv.refl _
     · exact Adv.refl _
   | setTime now => exact Adv.refl _
+  | upgrade auths =>
+    obtain ⟨b, hb⟩ := step_upgrade_fst H V w auths
+    rw [hb]; exact Adv.refl _
+  | migrate auths =>
+    obtain ⟨b, hb⟩ := step_migrate_fst H V w auths
+    rw [hb]; exact Adv.refl _
 
 theorem run_nil (w : World) : run H V w ([] : List (Op σ)) = (w, []) := rfl
 
